@@ -1,1 +1,234 @@
-import TboxModel.C20.Model
+/-
+C20 — PROPERTY THEOREMS.  "Alarms pick the earliest matching future instant and fire once per
+instant."  Statements rely on Model.lean / Spec.lean only; helper lemmas live in Proofs.lean,
+ArmProofs.lean, HistProofs.lean.
+
+Ranges: the code computes in uint32_t.  The theorems exclude (decidable hypotheses) the last
+days of the uint32 epoch range where `next += kSecondsOfDay` wraps (t + 9 d ≤ 2^32 for weekly,
+t + 368 d ≤ 2^32 for workday) and local times before 1970 (`InRange`); the model itself wraps
+like the code (correspondence-checked over the whole range).
+Cron: CronAlarm delegates to the third-party ccronexpr — not modelled (OPEN, see plugin notes).
+-/
+import TboxModel.C20.HistProofs
+namespace Tbox.C20
+
+/-! ### Part 1 — the next-instant computations -/
+
+/-- **weekly**: for every t, seconds-of-day < 86400 and every mask with at least one of the
+seven day bits, the result exists, is strictly after t, has the time of day `sod`, falls on a
+day of the mask, and no instant in between does. -/
+theorem C20_weekly_earliest (sod mask t : Nat) (hs : sod < D) (hm : ∃ w, w < 7 ∧ bit mask w = true)
+    (ht : t + 9 * D ≤ U32) :
+    ∃ r, nextWeekly sod mask t = some r ∧ Earliest (WeeklyMatch sod mask) t r :=
+  weekly_earliest sod mask t hs hm ht
+
+/-- an empty mask has no next instant: the computation reports failure (enable() returns false) -/
+theorem C20_weekly_empty_mask (sod mask t : Nat) (hm : ∀ w, w < 7 → bit mask w = false) :
+    nextWeekly sod mask t = none :=
+  weekly_empty sod mask t hm
+
+/-- **one-shot**: today at `sod` if still ahead, otherwise tomorrow — the earliest instant
+strictly after t with that time of day. -/
+theorem C20_oneshot_earliest (sod t : Nat) (hs : sod < D) (ht : t + 2 * D ≤ U32) :
+    Earliest (OneshotMatch sod) t (nextOneshot sod t) :=
+  oneshot_earliest sod t hs ht
+
+/-- **workday**: if the calendar has a matching instant whose day is among the 367 days the
+code scans (today … today + 366), the result is the earliest matching instant after t. -/
+theorem C20_workday_earliest (sod : Nat) (cal : Calendar) (wd : Bool) (t : Nat) (hs : sod < D)
+    (ht : t + 368 * D ≤ U32)
+    (hex : ∃ r', t < r' ∧ r' / D < t / D + 367 ∧ WorkdayMatch sod cal wd r') :
+    ∃ r, nextWorkday sod cal wd t = some r ∧ Earliest (WorkdayMatch sod cal wd) t r := by
+  cases h : nextWorkday sod cal wd t with
+  | none =>
+    obtain ⟨r', h1, h2, h3⟩ := hex
+    exact absurd h3 (workday_none sod cal wd t hs ht h r' h1 h2)
+  | some r => exact ⟨r, rfl, (workday_some sod cal wd t r hs ht h).1⟩
+
+/-- and when it reports failure there is no matching instant on any scanned day -/
+theorem C20_workday_none (sod : Nat) (cal : Calendar) (wd : Bool) (t : Nat) (hs : sod < D)
+    (ht : t + 368 * D ≤ U32) (h : nextWorkday sod cal wd t = none) :
+    ∀ r', t < r' → r' / D < t / D + 367 → ¬ WorkdayMatch sod cal wd r' :=
+  workday_none sod cal wd t hs ht h
+
+-- OPEN (false of the code as it is): `C20_workday_earliest` without the 367-day bound `hex`.
+/-- beyond the scan the computation gives up although a matching instant exists: every day a
+holiday except day 367 — the alarm reports "no next instant" (enable() fails). -/
+theorem C20_workday_beyond_scan_counterexample :
+    ∃ (cal : Calendar) (t r' : Nat), t + 368 * D ≤ U32 ∧ t < r' ∧ WorkdayMatch 0 cal true r' ∧
+      nextWorkday 0 cal true t = none := by
+  refine ⟨{ weekMask := 0, special := [(367, true)] }, 0, 367 * 86400, by decide, by decide, ⟨by decide, by decide⟩, ?_⟩
+  unfold nextWorkday
+  apply scan_false_bounded
+  intro j hj
+  have : (j == 367) = false := by simp; omega
+  simp [Calendar.isWorkday, List.lookup, bit, this]
+
+/-! ### Part 2 — arming -/
+
+/-- **time zone**: with offset `off` (explicit, or 0 when none was set) a successful arm computes
+the EARLIEST matching local instant `nl` strictly after the local start `max(now, target) + off`,
+stores the UTC target `nl − off`, and that target is strictly after both the current UTC second
+and the previous target. -/
+theorem C20_tz (a : Alarm) (e : Env) (hs : a.sod < D) (hr : InRange (max e.sec a.target) a.offset)
+    (hok : (activeTimer a e).2 = true) :
+    ∃ nl, Earliest (Matches a e.cal) (addOff (max e.sec a.target) a.offset) nl ∧
+      (((activeTimer a e).1.target : Nat) : Int) + a.offset = nl ∧
+      e.sec < (activeTimer a e).1.target ∧ a.target < (activeTimer a e).1.target ∧
+      (addOff (max e.sec a.target) a.offset : Int) = (max e.sec a.target : Nat) + a.offset := by
+  obtain ⟨nl, T, d, _, heq, h1, h2, _, h4⟩ := activeTimer_spec a e hs hr hok
+  refine ⟨nl, h4, by rw [heq]; exact h1, by rw [heq]; simp only; omega, by rw [heq]; simp only; omega, ?_⟩
+  obtain ⟨r1, r2, _⟩ := hr
+  simp only [addOff, U32_eq]; omega
+
+/-- **the wait is never short** — for EVERY distance: the armed delay `d` (milliseconds on the
+monotonic clock, counted from the arming moment) is exactly the wall-clock distance to the
+target measured at arming: `d = 1000·(target − now_sec) − ⌊usec/1000⌋`, i.e. wall-now(ms) + d =
+target(ms).  (Holds with the 64-bit conversion of patches/C20-01.) -/
+theorem C20_delay_not_short (a : Alarm) (e : Env) (hs : a.sod < D)
+    (hr : InRange (max e.sec a.target) a.offset) (hok : (activeTimer a e).2 = true) :
+    ∃ d, (activeTimer a e).1.timer = some (e.monoMs + d) ∧
+      e.sec < (activeTimer a e).1.target ∧
+      d + e.ms = ((activeTimer a e).1.target - e.sec) * 1000 ∧
+      (e.wallMs / 1000 < U32 → e.wallMs + d = (activeTimer a e).1.target * 1000) := by
+  obtain ⟨nl, T, d, _, heq, _, h2, h3, _⟩ := activeTimer_spec a e hs hr hok
+  refine ⟨d, by rw [heq], by rw [heq]; simp only; omega, by rw [heq]; exact h3, ?_⟩
+  intro hw
+  rw [heq]; simp only
+  have hsec : e.sec = e.wallMs / 1000 := by unfold Env.sec; exact w32_of_lt hw
+  have hms : e.ms = e.wallMs % 1000 := rfl
+  have : e.sec < T := by omega
+  omega
+
+-- the same statement is FALSE for the arithmetic of the unpatched tree:
+/-- `remain_sec * 1000` in uint32_t: a distance of 4 294 968 s (49.7 days) is armed as 704 ms. -/
+theorem C20_delay_u32_counterexample :
+    delayMs32 4294968 0 = 704 ∧ 704 < 4294968 * 1000 ∧ delayMs 4294968 0 = 4294968 * 1000 := by decide
+
+/-- **targets strictly increase** across re-arms, also on an early wake-up (monotonic clock
+ahead of the wall clock: `now < target` when the timer fires): the expiry of a weekly / workday
+alarm standing for instant `a.target` either re-arms for a target strictly greater than both
+`a.target` and the current second, or (no further matching day) leaves the alarm idle with no
+timer.  Hence never two callbacks for one instant. -/
+theorem C20_targets_strictly_increase (a : Alarm) (e : Env) (hcls : a.cls ≠ .oneshot) (hs : a.sod < D)
+    (hr : InRange (max e.sec a.target) a.offset) :
+    ((expire a e).1.st = .running → a.target < (expire a e).1.target ∧ e.sec < (expire a e).1.target) ∧
+    ((expire a e).1.st ≠ .running → (expire a e).1.timer = none) ∧
+    (expire a e).2.1 = a.target := by
+  have hex : (expire a e).1 = (activeTimer { a with timer := none, st := .inited, nFired := a.nFired + 1 } e).1 := by
+    unfold expire; cases hc : a.cls <;> simp_all
+  refine ⟨?_, ?_, by rw [expire_served]⟩
+  · intro hrun
+    rw [hex] at hrun ⊢
+    rcases activeTimer_cases { a with timer := none, st := .inited, nFired := a.nFired + 1 } e with ⟨hok, _, _⟩ | ⟨_, heq⟩
+    · obtain ⟨nl, T, d, _, heq, _, h2, _, _⟩ :=
+        activeTimer_spec { a with timer := none, st := .inited, nFired := a.nFired + 1 } e hs hr hok
+      rw [heq]; simp only at h2 ⊢; omega
+    · rw [heq] at hrun; simp at hrun
+  · intro hnr
+    exact (expire_inv a e).idle hnr
+
+/-- **disable(); enable() computes from the current time** (patches/C20-02): after disable()
+the next enable() arms the earliest matching instant strictly after NOW, whatever target was
+pending before. -/
+theorem C20_enable_after_disable_earliest (a : Alarm) (e : Env) (hrun : a.st = .running) (hs : a.sod < D)
+    (hr : InRange e.sec a.offset) (hok : (enable (disable a).1 e).2 = true) :
+    ∃ nl, Earliest (Matches a e.cal) (addOff e.sec a.offset) nl ∧
+      (((enable (disable a).1 e).1.target : Nat) : Int) + a.offset = nl := by
+  have hd : (disable a).1 = { a with subs := if a.cls = .workday then 0 else a.subs, st := .inited, timer := none, target := 0 } := by
+    unfold disable; simp [hrun]
+  rw [hd] at hok ⊢
+  unfold enable at hok ⊢
+  simp only [if_true] at hok ⊢
+  generalize hb : subscribe { a with subs := if a.cls = .workday then 0 else a.subs, st := .inited, timer := none, target := 0 } = b at hok ⊢
+  have hb' : b.cls = a.cls ∧ b.sod = a.sod ∧ b.mask = a.mask ∧ b.wd = a.wd ∧ b.target = 0 ∧ b.offset = a.offset := by
+    rw [← hb]; unfold subscribe Alarm.offset; split <;> simp
+  obtain ⟨b1, b2, b3, b4, b5, b6⟩ := hb'
+  have hok' : (activeTimer b e).2 = true := by
+    cases h : (activeTimer b e).2 with
+    | true => rfl
+    | false => simp [h] at hok
+  have hmax : max e.sec b.target = e.sec := by rw [b5]; omega
+  have hr' : InRange (max e.sec b.target) b.offset := by rw [hmax, b6]; exact hr
+  obtain ⟨nl, he, ht, _, _, _⟩ := C20_tz b e (by rw [b2]; exact hs) hr' hok'
+  refine ⟨nl, ?_, ?_⟩
+  · rw [hmax, b6] at he
+    unfold Earliest Matches at he ⊢
+    rw [b1, b2, b3, b4] at he
+    exact he
+  · simp only [hok', if_true, bump]
+    rw [← b6]; exact ht
+
+-- the property is FALSE of the unpatched tree, whose disable() keeps target_utc_sec_:
+/-- an alarm left "inited" with a stale pending target (what the unpatched disable() leaves
+behind): daily 10:00 alarm, now 02:00, stale target 10:00 today — enable() arms 10:00 TOMORROW
+although 10:00 today matches and is in the future. -/
+theorem C20_stale_target_counterexample :
+    let a : Alarm := { cls := .weekly, sod := 36000, mask := 127, st := .inited, tzSet := true, off := 0,
+                       target := 1699956000 }
+    let e : Env := { wallMs := 1699927200000, monoMs := 0 }
+    (enable a e).1.target = 1700042400 ∧ e.sec < 1699956000 ∧ 1699956000 < 1700042400 ∧
+      1699956000 % D = a.sod ∧ bit a.mask (weekday 1699956000) = true := by decide
+
+/-! ### Part 3 — histories: enable / disable / refresh / cleanup / calendar updates / passes,
+with arbitrary clocks at every step (skew and wall-clock adjustments included) -/
+
+/-- **a one-shot alarm fires at most once per enable()**: over any history of a one-shot alarm
+the number of callbacks is at most the number of enable() calls. -/
+theorem C20_oneshot_once (hist : List (Env × AOp)) :
+    (arun (fresh .oneshot) hist).2.length ≤ countEnable hist := by
+  have h := arun_oneshot hist (fresh .oneshot) rfl (fresh_inv _) (by unfold Inv2 fresh; simp)
+  have h0 : (fresh .oneshot).nFired = 0 ∧ (fresh .oneshot).nEnabled = 0 := ⟨rfl, rfl⟩
+  have h2 := h.2.2
+  unfold Inv2 at h2
+  omega
+
+/-- and its expiry leaves it idle: no timer, not enabled, until the next enable() -/
+theorem C20_oneshot_expiry_idle (a : Alarm) (e : Env) (hc : a.cls = .oneshot) :
+    (expire a e).1.timer = none ∧ (expire a e).1.st = .inited := by
+  unfold expire; simp [hc]
+
+/-- **a disabled alarm never fires**: after disable(), whatever the history before and
+whatever follows except enable() — clock jumps, passes at any time, refresh, calendar updates,
+re-initialisation, cleanup — there is no callback. -/
+theorem C20_disabled_never_fires (c : Cls) (hist1 hist2 : List (Env × AOp))
+    (hne : ∀ p ∈ hist2, isEnable p.2 = false) :
+    (arun (disable (arun (fresh c) hist1).1).1 hist2).2 = [] := by
+  have h1 := (arun_inv hist1 (fresh c) (fresh_inv c)).1
+  have hd := disable_inv _ h1
+  exact (arun_idle hist2 _ hd.1 hd.2 hne).1
+
+/-- every callback ever made finds the alarm enabled (isEnabled() was true when the timer
+expired): in every reachable state the loop timer is armed iff the alarm is enabled. -/
+theorem C20_fired_was_enabled (c : Cls) (hist : List (Env × AOp)) :
+    (∀ f ∈ (arun (fresh c) hist).2, f.wasRunning = true) ∧ Inv (arun (fresh c) hist).1 :=
+  ⟨(arun_inv hist (fresh c) (fresh_inv c)).2, (arun_inv hist (fresh c) (fresh_inv c)).1⟩
+
+/-! ### non-vacuity -/
+
+/-- Tuesday 2023-11-14 22:13:20 UTC, alarm at 10:00 on Wednesdays and Sundays → Wed 10:00 -/
+example : nextWeekly 36000 0b0001001 1700000000 = some 1700042400 := by decide
+example : 1700000000 + 9 * D ≤ U32 ∧ (36000 < D) ∧ (∃ w, w < 7 ∧ bit 0b0001001 w = true) :=
+  ⟨by decide, by decide, 0, by decide, by decide⟩
+/-- only today's weekday in the mask and today's time already passed → a full week ahead (8th iteration) -/
+example : nextWeekly 0 0b0000100 1700000000 = some (1700000000 - 80000 + 7 * 86400) := by decide
+example : nextOneshot 80000 1700000000 = 1700086400 := by decide
+example : nextWorkday 30600 {} true 1700000000 = some 1700037000 := by decide
+/-- a workday calendar with a matching day inside the scan window -/
+example : ∃ r', 1700000000 < r' ∧ r' / D < 1700000000 / D + 367 ∧ WorkdayMatch 30600 {} true r' :=
+  ⟨1700037000, by decide, by decide, by decide, by decide⟩
+/-- an arm in range: UTC+8, 08:30 local every day, now = 2023-11-14 22:13:20.250 UTC -/
+def demoAlarm : Alarm := { cls := .weekly, sod := 30600, mask := 127, st := .inited, tzSet := true, off := 28800 }
+def demoEnv : Env := { wallMs := 1700000000250, monoMs := 5000 }
+example : InRange (max demoEnv.sec demoAlarm.target) demoAlarm.offset := by decide
+example : (activeTimer demoAlarm demoEnv).2 = true ∧ (activeTimer demoAlarm demoEnv).1.target = 1700008200 ∧
+    (activeTimer demoAlarm demoEnv).1.timer = some (5000 + 8199750) := by decide
+/-- an early wake-up (wall clock 5 ms short of the target) re-arms for the NEXT day -/
+example : ((expire { demoAlarm with st := .running, target := 1700008200, timer := some 1 }
+    { wallMs := 1700008199995, monoMs := 9000000 }).1.target) = 1700094600 := by decide
+/-- a history: one-shot enabled, fires, stays idle; second pass yields nothing -/
+example : (arun (fresh .oneshot)
+    [({ wallMs := 1000000000, monoMs := 0 }, .init 100 [] true), ({ wallMs := 1000000000, monoMs := 0 }, .enable),
+     ({ wallMs := 90000000000, monoMs := 89000000000 }, .pass), ({ wallMs := 190000000000, monoMs := 189000000000 }, .pass)]).2.length = 1 := by decide
+
+end Tbox.C20
